@@ -472,6 +472,31 @@ def install(I: Interp, fs: dict):
     M[("Col", "replace")] = col_map(c_replace)
     M[("Col", "fillna")] = col_map(lambda I, v, a, k, n: a[0] if v is NAN else v)
 
+    def f_fillna(I, f, a, k, n):
+        """DataFrame.fillna(value | {column: value}): every NaN of the frame / of the named columns"""
+        val = a[0] if a else k.get("value")
+        if isinstance(val, dict):
+            return MiniFrame({c: [(val[c] if (x is NAN and c in val) else x) for x in v] for c, v in f.cols.items()}, f.tags)
+        return MiniFrame({c: [(val if x is NAN else x) for x in v] for c, v in f.cols.items()}, f.tags)
+    M[("MiniFrame", "fillna")] = f_fillna
+
+    def f_replace(I, f, a, k, n):
+        """DataFrame.replace(old, new) | replace({column: {old: new}}) | replace({old: new})"""
+        def rep(x, pairs):
+            for old, new in pairs:
+                if I.py_eq(x, old) is True:
+                    return new
+            return x
+        if len(a) == 2:
+            return MiniFrame({c: [rep(x, [(a[0], a[1])]) for x in v] for c, v in f.cols.items()}, f.tags)
+        spec = a[0] if a else k.get("to_replace")
+        if isinstance(spec, dict) and spec and all(isinstance(x, dict) for x in spec.values()):
+            return MiniFrame({c: [rep(x, list(spec[c].items())) if c in spec else x for x in v] for c, v in f.cols.items()}, f.tags)
+        if isinstance(spec, dict):
+            return MiniFrame({c: [rep(x, list(spec.items())) for x in v] for c, v in f.cols.items()}, f.tags)
+        I.err(n, f"DataFrame.replace({spec!r})")
+    M[("MiniFrame", "replace")] = f_replace
+
     def c_astype(I, c, a, k, n):
         t = a[0] if a else k.get("dtype")
         t = t if isinstance(t, str) else getattr(t, "dotted", str(t))
